@@ -1,4 +1,5 @@
 """C12 Only well-formed messages reach the application; sent ones are well-formed."""
+import re
 from engine import flow as fl, ru, paths as pa, expr, tables, dispatch as dp
 
 EXPLANATION = (
@@ -41,29 +42,53 @@ def slot_state(p, slot):
     return out
 
 
+def pseudo_name_table(ctx, rule, fp):
+    """({name bytes: Field variant}, wildcard refuses?) of Field::parse - from the literal `match` (HIR) when the function has one,
+    else from its paths (`if name == b":scheme" {..} else if ..`: the literal whose comparison was true on the path to Field::X,
+    and the path on which every comparison was false)."""
+    prog = ctx.prog
+    ms = [m for m in tables.match_tables(prog, fp.key) if any(isinstance(pat, bytes) for pat, _, _ in m)]
+    got, wild_ok, ok = {}, False, len(ms) == 1
+    if ok:
+        for pat, guard, body in ms[0]:
+            if pat == "_":
+                wild_ok = body is not None and body[0] == "ret" and "Err" in str(body) and "invalid_name" in str(body)
+            elif isinstance(pat, bytes) and body[0] == "call" and not guard:
+                got[pat] = body[1].rsplit("::", 1)[-1]
+            else:
+                ok = False
+        return got, wild_ok, ok
+    if ms:
+        return got, wild_ok, False
+    ps = [p for p in ru.all_paths(ctx, rule, fp) if p.end == "return"]
+    ok = True
+    for p in ps:
+        cmp_ = [(tables.parse_bytes_literal(pa.vfmt(a)), t[2]) for t in p.tests if t[3][0] == "call" and pa.short(t[3][1]) in ("eq", "ne") and len(t[3][2]) == 2
+                for a in t[3][2] if pa.vfmt(a).startswith('b"')]
+        cmp_ = [(b_, lab) for b_, lab in cmp_ if b_ is not None and b_.startswith(b":")]
+        hit = [b_ for b_, lab in cmp_ if lab == "true"]
+        sh = p.ret_shape()
+        m_ = re.match(r"Ok\(Field::(\w+)\)$", sh)
+        if m_ and m_.group(1) != "Header":
+            if len(hit) != 1:
+                ok = False
+            else:
+                got[hit[0]] = m_.group(1)
+        elif len(cmp_) >= 6 and not hit and (sh.startswith("Err(") or sh.startswith("Residual(")) and "invalid_name" in pa.vfmt(p.ret):
+            wild_ok = True
+    return got, wild_ok, ok
+
+
 def run(ctx):
     prog = ctx.prog
     # ------------------------------------------------------------------ C12-a
     fp = ru.need(ctx, "C12-a", H + "Field::parse")
     if fp:
-        # the name table is the match whose patterns are byte-string literals (other matches of the function do not matter)
-        ms = [m for m in tables.match_tables(prog, fp.key) if any(isinstance(pat, bytes) for pat, _, _ in m)]
         want = {b":scheme": "Scheme", b":authority": "Authority", b":path": "Path", b":method": "Method", b":status": "Status", b":protocol": "Protocol"}
-        ok = len(ms) == 1
-        got = {}
-        wild = None
-        if ok:
-            for pat, guard, body in ms[0]:
-                if pat == "_":
-                    wild = body
-                elif isinstance(pat, bytes) and body[0] == "call" and not guard:
-                    got[pat] = body[1].rsplit("::", 1)[-1]
-                else:
-                    ok = False
+        got, wild_ok, ok = pseudo_name_table(ctx, "C12-a", fp)
         ctx.check(ok and got == want, "C12-a", fp.key, "pseudo-header table = the six defined names",
                   "Field::parse maps pseudo names %s; RFC 9114 4.3 / RFC 9220 define exactly %s" % (got, want), str(sorted(got)))
-        ctx.check(wild is not None and wild[0] == "ret" and "Err" in str(wild) and "invalid_name" in str(wild), "C12-a", fp.key,
-                  "any other ':' name is rejected", "the wildcard arm of the pseudo-header match is %s" % (wild,), "")
+        ctx.check(wild_ok, "C12-a", fp.key, "any other ':' name is rejected", "no refusing wildcard arm / final else for unknown pseudo-header names", "")
         ps = [p for p in ru.all_paths(ctx, "C12-a", fp) if p.end == "return"]
         validators = {"Scheme": ("try_value", "http::uri::scheme::Scheme"), "Authority": ("try_value", "http::uri::authority::Authority"),
                       "Path": ("try_value", "http::uri::path::PathAndQuery"), "Protocol": ("try_value", "h3::ext::Protocol"),
@@ -325,7 +350,21 @@ def run(ctx):
         f = fl.Flow(rsps, prog)
         for bb, s in ru.aggregates(rsps, H + "Pseudo"):
             vals = {n: f.origin(ru.field_op(s, n)) for n in ("method", "scheme", "authority", "path", "status", "protocol")}
-            ok = vals["status"] == ("agg", "core::option::Option::Some", (("param", 1, ()),)) and all(
-                v[0] == "agg" and v[1].endswith("::None") for n, v in vals.items() if n != "status")
+            # a field left to `..Pseudo::default()` is None when Pseudo's Default gives None for it (derived: Option's own default)
+            dflt = prog.one("<h3::proto::headers::Pseudo as core::default::Default>::default")
+            dnone = set()
+            if dflt:
+                fd_ = fl.Flow(dflt, prog)
+                for _bb, s2 in ru.aggregates(dflt, H + "Pseudo"):
+                    for n in ("method", "scheme", "authority", "path", "status", "protocol"):
+                        o2 = fd_.origin(ru.field_op(s2, n))
+                        if (o2[0] == "call" and "core::option::Option" in o2[1] and o2[1].endswith("Default>::default")) or (o2[0] == "agg" and o2[1].endswith("::None")):
+                            dnone.add(n)
+
+            def is_none(n, v):
+                if v[0] == "agg" and v[1].endswith("::None"):
+                    return True
+                return n in dnone and v[0] == "proj" and v[1][0] == "call" and v[1][1] == "<h3::proto::headers::Pseudo as core::default::Default>::default" and tuple(v[2]) == (n,)
+            ok = vals["status"] == ("agg", "core::option::Option::Some", (("param", 1, ()),)) and all(is_none(n, v) for n, v in vals.items() if n != "status")
             ctx.check(ok, "C12-d", rsps.key, "responses carry exactly :status = the caller's status", "Pseudo::response = %s" % {n: fl.fmt(v) for n, v in vals.items()}, "")
     ctx.assume("http::{HeaderName::from_lowercase, HeaderValue::from_bytes, Method/StatusCode::from_bytes, Uri builder, FromStr impls} validate as documented")
